@@ -35,6 +35,7 @@ struct State {
     int dtor_mode = 0;  // 0 plain, 1 re-enters size, 2 re-enters destroyObjects, 3 re-enters add
     bool throwing = false;
     bool container_alive = true;
+    bool readd_in_dtor = false;
     int reentrant_adds = 0;
     // callback mode 5: the callback keeps a copy of the pointer it is handed (it gets a
     // non-const shared_ptr&); the object then lives until that copy is dropped, but the
@@ -73,7 +74,9 @@ struct Obj {
                            "callbacks (expected exactly one)", id, in.callbacks);
             if (in.callbacks > 1)
                 gsim::fail("callback_count", "callback ran %d times for object %ld", in.callbacks, id);
-            mode = S->container_alive ? S->dtor_mode : 0;
+            // while the container itself is being destroyed only the "queue a follow-up
+            // object" re-entry stays on (knob): its destructor loops until nothing is queued
+            mode = S->container_alive ? S->dtor_mode : (S->dtor_mode == 3 && S->readd_in_dtor ? 3 : 0);
         }
         // the destructor must be able to call back into the container
         if (mode && reenter) reenter(mode);
@@ -253,6 +256,7 @@ struct WL {
         st.cb_mode = gsim::knob("callback", 0, 5);
         st.parked = new std::vector<Ptr>();
         st.dtor_mode = gsim::knob("dtor", 0, 3);
+        st.readd_in_dtor = gsim::knob("readd_in_dtor", 0, 1) != 0;
         if (st.throwing && st.cb_mode == 0) st.cb_mode = 1;
         if (!gsim::prog_loaded()) {
             int n = single_thread ? 1 : 2 + gsim::gen_int(3);
